@@ -458,6 +458,8 @@ fn exercise_error(e: &Error) {
 /// quoting context are only required not to panic.
 struct Sub {
     fail: Option<String>,
+    /// characters of printed sub-trees still allowed to be re-parsed (deeply nested inputs are quadratic)
+    budget: usize,
 }
 
 impl Sub {
@@ -465,8 +467,12 @@ impl Sub {
         if self.fail.is_some() {
             return;
         }
-        let (sx1, has_heredoc) = sx(node);
+        if self.budget == 0 {
+            return;
+        }
         let text = node.to_string();
+        self.budget = self.budget.saturating_sub(text.len() + 1);
+        let (sx1, has_heredoc) = sx(node);
         match T::from_str(&text) {
             Ok(n2) => {
                 if strict && !has_heredoc {
@@ -745,7 +751,7 @@ fn evaluate(src: &str) -> Outcome {
                 if r != "ok" {
                     fails.push(r);
                 }
-                let mut sub = Sub { fail: None };
+                let mut sub = Sub { fail: None, budget: 200_000 };
                 sub.list(list);
                 fails.extend(sub.fail);
                 format!("ok {}", enc_str(&printed))
